@@ -1,6 +1,6 @@
 SPECIFICATION Spec
 CONSTANTS MaxLen = 2 MaxN = 4 Infinite = FALSE MaxOut = 100
-  Vals = "nat" Stops = FALSE MaxRuns = 1
+  Vals = "nat" Stops = FALSE MaxRuns = 1 MaxLead = 0
   Alphabet <- AlphaNul
   Must <- NoMust
   Pairs <- Both
